@@ -260,7 +260,7 @@ package ext
 // (a retry after ErrNeedMore would otherwise read edited bytes). hdrComplete: the last completeness check of
 // this parse succeeded.
 //@ ghost var hdrComplete bool
-//@ ghost var hcAt int
+//@ ghost var hcAt int scratch
 //@ func HeadersComplete(buf) r
 //@   props C02, C03
 //@   modifies hcAt
